@@ -19,6 +19,8 @@ def gen(rng):
         labels = sorted(rng.sample([chr(97 + i) * rng.randint(1, 2) for i in range(20)] + ["E1", "N0"], n))
     else:
         labels = sorted(rng.sample(range(0, 40), n))
+        if rng.random() < 0.5:
+            labels = [x * 1009 + 300 for x in labels]   # ints that CPython does not share: equality is not identity
     edges = []
     for _ in range(rng.randint(1, 12)):
         size = min(n, rng.choice([2, 2, 2, 3, 3, 4, 5, 6]))
@@ -41,6 +43,21 @@ def gen(rng):
                 edges.append(((rng.choice(e[1]),), (s,)))
     iso = [x for x in labels if rng.random() < 0.15]
     return labels, edges, iso
+
+
+def fresh(x):
+    """an equal but freshly constructed label object (labels are values, not objects)"""
+    if isinstance(x, bool):
+        return x
+    if isinstance(x, int):
+        return int(str(x))
+    if isinstance(x, str):
+        return ''.join(list(x))
+    return x
+
+
+def fresh_edge(e):
+    return (tuple(fresh(x) for x in e[0]), tuple(fresh(x) for x in e[1]))
 
 
 def canon(e):
@@ -89,7 +106,7 @@ def check_one(ctx, drv, labels, edges, iso, route="plain"):
     try:
         if route == "plain" or len(uniq) < 2:
             for e in edges:
-                h.add_edge(e)
+                h.add_edge(fresh_edge(e))
         elif route == "detour":
             # temporary hyperedges of another size inserted first and removed again (internal ids get gaps), the first
             # half removed and re-inserted after the rest (listing order changes, ids are not dense)
@@ -106,9 +123,9 @@ def check_one(ctx, drv, labels, edges, iso, route="plain"):
                 if canon(e) not in {canon(f) for f in half}:
                     h.add_edge(e)
             for e in half[:2]:
-                h.remove_edge(e)
+                h.remove_edge(fresh_edge(e))
             for e in half[:2]:
-                h.add_edge(e)
+                h.add_edge(fresh_edge(e))
         elif route == "copy":
             # the instance is the ORIGINAL of a copy that was mutated afterwards (and must not notice)
             for e in edges:
@@ -184,7 +201,7 @@ def check_one(ctx, drv, labels, edges, iso, route="plain"):
         for which, seqf, onef, side in (("indeg", in_degree_sequence, in_degree, 0), ("outdeg", out_degree_sequence, out_degree, 1)):
             try:
                 seq = seqf(h, **kw)
-                ones = {x: onef(h, x, **kw) for x in nodes}
+                ones = {x: onef(h, fresh(x), **kw) for x in nodes}
             except Exception as ex:  # the property says these calls return counts
                 ctx.violation({**case, "filter": kw}, f"{which} with filter {kw} raised {type(ex).__name__}: {ex}")
                 continue
